@@ -90,7 +90,9 @@ def parse_lp_packet(wire: BinaryStr, with_tl: bool = True) -> (int | None, Binar
     """
     ret = parse_lp_packet_v2(wire, with_tl)
     if ret.nack is not None:
-        return ret.nack.nack_reason, ret.fragment
+        # A Nack header without NackReason means reason None (0)
+        nack_reason = ret.nack.nack_reason
+        return (nack_reason if nack_reason is not None else NackReason.NONE), ret.fragment
     else:
         return None, ret.fragment
 
